@@ -16,17 +16,19 @@ type crashSentinel struct{}
 
 type thread struct {
 	id     int
-	resume chan bool // true = run the pending step, false = die here
+	resume chan int // 1 = run the pending step, 0 = die here, 2 = run it and let the environment answer with a fault
 	done   bool
 	dead   bool
 	op     string // description of the pending step
 	steps  int
+	fault  bool // the pending step can be answered with a fault (StepF)
 }
 
 // Point is one scheduling point of an execution.
 type Point struct {
 	Enabled        []int // canonical order: the running thread first if still enabled, then ascending ids
 	Crashable      []int // threads that may be crashed here (choices after the run choices)
+	Faultable      []int // threads whose pending step may be answered with a fault (choices after the crash choices)
 	RunningEnabled bool
 	Ops            []string
 }
@@ -40,12 +42,18 @@ type Exec struct {
 	Panics  []string // non-sentinel panics of thread bodies (real code panics)
 	Pruned  bool     // stopped early because the global state had been visited
 	Clock   int
+	Faults  int // environment faults injected in this execution
 }
 
 // Config of one run.
 type Config struct {
 	Crashable  map[int]bool
 	MaxCrashes int
+	// Faultable threads may have a fault-capable step (osshim: write, close, fsync, rename, create) answered with an
+	// error instead of its default answer - at most MaxFaults times per execution. This is the "deviation from the
+	// default environment answer" dimension: ENOSPC part-way through a write, EIO on close/fsync, EXDEV on rename.
+	Faultable map[int]bool
+	MaxFaults int
 	// StateKey, when non-nil, is called at every scheduling point beyond the
 	// replayed prefix; if Visit(key) reports the key as already seen the
 	// execution is abandoned (its futures were explored from the first visit).
@@ -62,6 +70,7 @@ type Sched struct {
 	cfg     Config
 	clock   int
 	crashes int
+	faults  int
 }
 
 // S is the scheduler of the execution in progress (nil: shim calls pass straight through).
@@ -84,22 +93,30 @@ func Current() int {
 }
 
 // Step is called by the shim before every file-system step.
-func Step(op string) {
+func Step(op string) { step(op, false) }
+
+// StepF is Step for a step the environment may answer with a fault; it reports whether this one must fail.
+func StepF(op string) (fault bool) { return step(op, true) }
+
+func step(op string, faultable bool) bool {
 	s := S
 	if s == nil || s.cur == nil {
-		return
+		return false
 	}
 	t := s.cur
 	if t.dead {
 		panic(crashSentinel{})
 	}
 	t.op = op
+	t.fault = faultable
 	s.yield <- t.id
-	if !<-t.resume {
+	r := <-t.resume
+	if r == 0 {
 		t.dead = true
 		panic(crashSentinel{})
 	}
 	t.steps++
+	return r == 2
 }
 
 // Dead reports whether the running thread has been crashed: the shim must not touch the file system any more.
@@ -137,10 +154,10 @@ func Run(prefix []int, cfg Config, bodies ...func()) *Exec {
 	S = s
 	defer func() { S = nil }()
 	for i, b := range bodies {
-		t := &thread{id: i, resume: make(chan bool), op: "start"}
+		t := &thread{id: i, resume: make(chan int), op: "start"}
 		s.threads = append(s.threads, t)
 		go func(t *thread, body func()) {
-			if !<-t.resume {
+			if <-t.resume == 0 {
 				t.dead = true
 				t.done = true
 				s.yield <- t.id
@@ -192,12 +209,20 @@ func Run(prefix []int, cfg Config, bodies ...func()) *Exec {
 				}
 			}
 		}
+		var faultIdx []int
+		if s.faults < cfg.MaxFaults {
+			for _, id := range order {
+				if cfg.Faultable[id] && s.threads[id].fault && s.threads[id].op != "start" {
+					faultIdx = append(faultIdx, id)
+				}
+			}
+		}
 		i := len(s.exec.Points)
 		c := 0
 		if i < len(prefix) {
 			c = prefix[i]
-			if c >= len(order)+len(crashIdx) {
-				panic(fmt.Sprintf("sched: replay divergence at point %d: choice %d of %d (trace so far %v)", i, c, len(order)+len(crashIdx), s.exec.Trace))
+			if c >= len(order)+len(crashIdx)+len(faultIdx) {
+				panic(fmt.Sprintf("sched: replay divergence at point %d: choice %d of %d (trace so far %v)", i, c, len(order)+len(crashIdx)+len(faultIdx), s.exec.Trace))
 			}
 		} else if cfg.StateKey != nil {
 			if cfg.Visit(cfg.StateKey(s)) {
@@ -206,14 +231,14 @@ func Run(prefix []int, cfg Config, bodies ...func()) *Exec {
 				for _, id := range order {
 					t := s.threads[id]
 					s.cur = t
-					t.resume <- false
+					t.resume <- 0
 					<-s.yield
 				}
 				s.cur = nil
 				break
 			}
 		}
-		p := Point{Enabled: order, Crashable: crashIdx, RunningEnabled: runningEnabled}
+		p := Point{Enabled: order, Crashable: crashIdx, Faultable: faultIdx, RunningEnabled: runningEnabled}
 		for _, id := range order {
 			p.Ops = append(p.Ops, fmt.Sprintf("T%d:%s", id, s.threads[id].op))
 		}
@@ -226,15 +251,24 @@ func Run(prefix []int, cfg Config, bodies ...func()) *Exec {
 			s.cur = t
 			running = t.id
 			s.clock++
-			t.resume <- true
-		} else {
+			t.resume <- 1
+		} else if c < len(order)+len(crashIdx) {
 			t = s.threads[crashIdx[c-len(order)]]
 			s.exec.Trace = append(s.exec.Trace, fmt.Sprintf("CRASH T%d before %s", t.id, t.op))
 			s.exec.Crashed[t.id] = true
 			s.crashes++
 			s.cur = t
 			s.clock++
-			t.resume <- false
+			t.resume <- 0
+		} else {
+			t = s.threads[faultIdx[c-len(order)-len(crashIdx)]]
+			s.exec.Trace = append(s.exec.Trace, fmt.Sprintf("FAULT T%d:%s", t.id, t.op))
+			s.faults++
+			s.exec.Faults++
+			s.cur = t
+			running = t.id
+			s.clock++
+			t.resume <- 2
 		}
 		<-s.yield
 		s.cur = nil
@@ -278,7 +312,7 @@ func Explore(bound int, cfg Config, mk func() []func(), check func(*Exec), stop 
 		for i := 0; i < len(x.Points); i++ {
 			p := x.Points[i]
 			if i >= len(prefix) {
-				for alt := 1; alt < len(p.Enabled)+len(p.Crashable); alt++ {
+				for alt := 1; alt < len(p.Enabled)+len(p.Crashable)+len(p.Faultable); alt++ {
 					cost := pre
 					if alt < len(p.Enabled) && p.RunningEnabled {
 						cost++
